@@ -231,7 +231,8 @@ def df_group(inp, W):
             c1=di.first("v"), c2=lambda d: di.first(d.v),
             d1=di.count(), d2=lambda d: di.count(d.v),
             e1=di.nth("v", -2), e2=lambda d: di.nth(d.v, -2),
-            f1=di.last("v", drop_na=True), f2=lambda d: di.last(d.v, drop_na=True))
+            f1=di.last("v", drop_na=True), f2=lambda d: di.last(d.v, drop_na=True),
+            g1=di.count("v", drop_na=True), g2=lambda d: di.count(d.v, drop_na=True))
         return {"out": out}
     raise ValueError(mode)
 
